@@ -570,7 +570,13 @@ def read_header(filename):
     r0, I0 = ctx.run(rhf)
     END80 = b'END' + b' ' * 77
     sentinels = [a for a in T.all_atoms(r0.ret).values() if a.kind == 'call' and a.args[0] == 'iter_until'] if r0.ret is not None else []
-    if not [e for e in I0.events if e.kind == 'loop'] and sentinels:
+    loops0 = [e for e in I0.events if e.kind == 'loop']
+    # (also a `for card in iter(<read one card>, <END card>):` statement loop)
+    loop_sent = [a for e in loops0 if e.data['info'].get('iter') is not None
+                 for a in [e.data['info']['iter'].single_atom()] if a is not None and a.kind == 'call' and a.args[0] == 'iter_until']
+    if loop_sent and len(loops0) == 1:
+        sentinels = loop_sent
+    if (not loops0 or loop_sent) and sentinels:
         # written as a sentinel iteration  iter(<read one card>, <END card>): the loop is numpy's, not a statement -- the card-by-
         # card comparison with the reference loop does not apply; what is decided is the sentinel itself (the WHOLE 80-column END
         # card, compared for equality with an 80-byte record) and, below, the record size
